@@ -61,17 +61,18 @@ func (l *evlog) ev(format string, a ...interface{}) {
 }
 
 type simCfg struct {
-	id       string
-	n        uint8
-	chunk    int
-	static   time.Duration // 0 = adaptive
-	ping     time.Duration
-	pong     time.Duration
-	hsTO     time.Duration
-	mult     int
-	boost    float32
-	srvChunk int
-	freq     int // timeout update frequency (0 = default)
+	id        string
+	n         uint8
+	chunk     int
+	static    time.Duration // 0 = adaptive
+	ping      time.Duration
+	pong      time.Duration
+	hsTO      time.Duration
+	mult      int
+	boost     float32
+	srvChunk  int
+	freq      int  // timeout update frequency (0 = default)
+	srvNoPing bool // keepalive on the client only
 }
 
 type sim struct {
@@ -100,6 +101,7 @@ type sim struct {
 	blockTx   [2]bool // the transport's send blocks until its context ends (under mu)
 	closeRet  [2]bool // Close returned on side x (under mu)
 	closeRetN [2]int
+	rxCalls   [2]atomic.Int64 // calls of side x's receive callback
 }
 
 func errEnum(err error) string {
@@ -145,6 +147,7 @@ func (s *sim) sendFunc(x int) func(ctx context.Context, b []byte) error {
 
 func (s *sim) recvFunc(x int) func(ctx context.Context) ([]byte, error) {
 	return func(ctx context.Context) ([]byte, error) {
+		s.rxCalls[x].Add(1)
 		select {
 		case b := <-s.inb[x]:
 			s.l.ev("RX %d %s", x, hx(b))
@@ -155,7 +158,7 @@ func (s *sim) recvFunc(x int) func(ctx context.Context) ([]byte, error) {
 	}
 }
 
-func (s *sim) timeoutOpts() []gbn.TimeoutOptions {
+func (s *sim) timeoutOpts(side ...int) []gbn.TimeoutOptions {
 	var o []gbn.TimeoutOptions
 	if s.cfg.static > 0 {
 		o = append(o, gbn.WithStaticResendTimeout(s.cfg.static))
@@ -166,7 +169,7 @@ func (s *sim) timeoutOpts() []gbn.TimeoutOptions {
 	if s.cfg.hsTO > 0 {
 		o = append(o, gbn.WithHandshakeTimeout(s.cfg.hsTO))
 	}
-	if s.cfg.ping > 0 {
+	if s.cfg.ping > 0 && !(s.cfg.srvNoPing && len(side) > 0 && side[0] == 1) {
 		o = append(o, gbn.WithKeepalivePing(s.cfg.ping, s.cfg.pong))
 	}
 	if s.cfg.boost > 0 {
@@ -198,7 +201,7 @@ func (s *sim) startEndpoints(which ...int) {
 		go func() {
 			var c *gbn.GoBackNConn
 			var err error
-			opts := []gbn.Option{gbn.WithTimeoutOptions(s.timeoutOpts()...)}
+			opts := []gbn.Option{gbn.WithTimeoutOptions(s.timeoutOpts(x)...)}
 			if x == 0 {
 				if s.cfg.chunk > 0 {
 					opts = append(opts, gbn.WithMaxSendSize(s.cfg.chunk))
@@ -261,6 +264,21 @@ func (s *sim) op(x int, what string) {
 		s.inb[1-x] <- append([]byte{}, head...)
 	}
 	synctest.Wait()
+}
+
+// opNoWait is op for callers that are themselves one of the connection's goroutines (no synctest.Wait)
+func (s *sim) opNoWait(x int, what string) {
+	s.mu.Lock()
+	if len(s.ch[x]) == 0 {
+		s.mu.Unlock()
+		return
+	}
+	head := s.ch[x][0]
+	s.ch[x] = s.ch[x][1:]
+	s.chT[x] = s.chT[x][1:]
+	s.mu.Unlock()
+	s.l.ev("CH %d %s", x, what)
+	s.inb[1-x] <- append([]byte{}, head...)
 }
 
 func (s *sim) txTotal() int {
